@@ -105,7 +105,8 @@ Devs(cls) ==
           <<"qnoise_factor", "f:0.5">>, <<"use_ste", "b:0">>, <<"use_variables", "b:1">>}
     [] cls = "quantized_hswish" ->
          {<<"bits", "i:4">>, <<"integer", "i:1">>, <<"symmetric", "i:1">>, <<"alpha", "f:2.0">>, <<"use_stochastic_rounding", "b:1">>,
-          <<"qnoise_factor", "f:0.5">>, <<"use_variables", "b:1">>, <<"relu_shift", "i:2">>, <<"relu_upper_bound", "i:4">>}
+          <<"qnoise_factor", "f:0.5">>, <<"use_variables", "b:1">>, <<"relu_shift", "i:2">>, <<"relu_upper_bound", "i:4">>,
+          <<"relu_shift", "f:2.5">>, <<"relu_upper_bound", "f:5.5">>}
 
 RECURSIVE ApplySeq(_, _)
 ApplySeq(f, s) == IF s = <<>> THEN f ELSE ApplySeq([f EXCEPT ![Head(s)[1]] = Head(s)[2]], Tail(s))
